@@ -287,3 +287,26 @@ package experiment
 //@   ensures_local [means] count > 0 ==> result0 == real(totalNodes) / real(count) && result1 == real(totalGenes) / real(count) && result2 == real(totalEvals) / real(count) && result3 == real(totalDiversity) / real(count)
 //@   loop 1:
 //@     invariant -1 <= #idx && 0 <= count && count <= #idx + 1
+
+// Per-generation and per-trial averages: each is the Mean (see Floats.Mean) of the recorded series, empty series giving NaN.
+//@ func (*Generation).Average
+//@   props C19
+//@   requires g != nil
+//@   modifies nothing
+//@   ensures [fitness] (len(g.Fitness) > 0 ==> fitness == msMean(ms(g.Fitness))) && (len(g.Fitness) == 0 ==> isNaN(fitness))
+//@   ensures [age] (len(g.Age) > 0 ==> age == msMean(ms(g.Age))) && (len(g.Age) == 0 ==> isNaN(age))
+//@   ensures [complexity] (len(g.Complexity) > 0 ==> complexity == msMean(ms(g.Complexity))) && (len(g.Complexity) == 0 ==> isNaN(complexity))
+//@ func (*Trial).Average
+//@   props C19
+//@   requires t != nil
+//@   modifies nothing
+//@   ensures [len] len(fitness) == len(t.Generations) && len(age) == len(t.Generations) && len(complexity) == len(t.Generations)
+//@   ensures [fitness] forall i :: 0 <= i && i < len(t.Generations) && len(t.Generations[i].Fitness) > 0 ==> fitness[i] == msMean(ms(t.Generations[i].Fitness))
+//@   ensures [age] forall i :: 0 <= i && i < len(t.Generations) && len(t.Generations[i].Age) > 0 ==> age[i] == msMean(ms(t.Generations[i].Age))
+//@   ensures [complexity] forall i :: 0 <= i && i < len(t.Generations) && len(t.Generations[i].Complexity) > 0 ==> complexity[i] == msMean(ms(t.Generations[i].Complexity))
+//@   loop 1:
+//@     invariant -1 <= #idx && #idx < len(t.Generations) && len(fitness) == len(t.Generations) && len(age) == len(t.Generations) && len(complexity) == len(t.Generations) && fresh(fitness) && fresh(age) && fresh(complexity) && base(fitness) != base(age) && base(fitness) != base(complexity) && base(age) != base(complexity)
+//@     invariant [oldMem] forall b :: wasAllocated(b) ==> Mem[float64][b] == old(Mem[float64][b])
+//@     invariant [fitness] forall i :: 0 <= i && i <= #idx && len(t.Generations[i].Fitness) > 0 ==> fitness[i] == msMean(ms(t.Generations[i].Fitness))
+//@     invariant [age] forall i :: 0 <= i && i <= #idx && len(t.Generations[i].Age) > 0 ==> age[i] == msMean(ms(t.Generations[i].Age))
+//@     invariant [complexity] forall i :: 0 <= i && i <= #idx && len(t.Generations[i].Complexity) > 0 ==> complexity[i] == msMean(ms(t.Generations[i].Complexity))
